@@ -1,7 +1,8 @@
 \* trace validation on the Core tree
-CONSTANTS NLeaf = 6  NBlk = 3  NAsm = 2  MaxLevel = 999  LMax = 20000  VMax = 100
+CONSTANTS NLeaf = 6  NBlk = 3  NAsm = 2  MaxLevel = 999  LSrc = 600  LMax = 20000  VMax = 100
 CONSTANTS Parent <- TCoreParent  Area <- TCoreArea  Height <- TCoreHeight  Sym <- TCoreSym  W <- Wt  N0 <- TCoreN0  H0 <- TCoreH0
 CONSTANTS Targets <- TCoreTargetsAll  Vals <- ValsQ  Facs <- FacsQ  Masses <- MassesQ  Maps <- MapsQ  FracMaps <- FracMapsQ  AddMaps <- AddMapsQ  SetMaps <- SetMapsQ
+CONSTANTS AdjSets <- AdjSetsQ  EnrFracs <- EnrFracsQ  AdjMFs <- AdjMFsQ
 CONSTANTS HDom <- HDom123  HTargets <- TCoreHAll  HVals <- HDom123
 CONSTANTS LeafVolCut <- LeafVolCutEnv  ScaleRaises <- ScaleRaisesEnv
 SPECIFICATION TSpec
